@@ -112,6 +112,10 @@ class Translator:
         if isinstance(node, ast.Constant):
             if isinstance(node.value, (int, float, bool)):
                 return self.lit(node, node.value, want)
+            if isinstance(node.value, str) and len(node.value) == 1:
+                return f"({ord(node.value)})%Z", 'Z'     # one-letter tags by code point
+            if node.value is None:
+                return "(0)%Z", 'Z'                       # None tag
             self.bad(node)
         if isinstance(node, ast.Name):
             if node.id not in c.env:
@@ -224,6 +228,20 @@ class Translator:
     def compare(self, c, node):
         if len(node.ops) != 1:
             self.bad(node, "chained comparison")
+        op = node.ops[0]
+        if isinstance(op, (ast.In, ast.NotIn)):
+            a, ta = self.expr(c, node.left)
+            lst = node.comparators[0]
+            if ta != 'Z' or not isinstance(lst, (ast.List, ast.Tuple)) or not lst.elts:
+                self.bad(node, "membership test needs an integer and a literal list")
+            parts = []
+            for e in lst.elts:
+                b, tb = self.expr(c, e)
+                if tb != 'Z':
+                    self.bad(node, "membership list of non-integers")
+                parts.append(f"({a} =? {b})%Z")
+            r = '(' + ' || '.join(parts) + ')%bool'
+            return r if isinstance(op, ast.In) else f"(negb {r})"
         a, ta = self.expr(c, node.left)
         b, tb = self.expr(c, node.comparators[0])
         if not (ta == tb == 'Z'):
@@ -759,9 +777,12 @@ class Translator:
     def function(self, name, types, coqname=None):
         """Translate function `name`; `types` maps each parameter to a type.
         Returns (coq_text, FnSig)."""
-        if name not in self.funcs:
-            raise Untranslatable(self.path, 0, f"function {name} not found")
-        fn = self.funcs[name]
+        if isinstance(name, ast.FunctionDef):
+            fn, name = name, name.name
+        else:
+            if name not in self.funcs:
+                raise Untranslatable(self.path, 0, f"function {name} not found")
+            fn = self.funcs[name]
         a = fn.args
         if a.vararg or a.kwarg or a.kwonlyargs or a.defaults:
             self.bad(fn, "only plain positional parameters")
